@@ -21,8 +21,8 @@ VARIANTS = [
     V("drift-perturbed", BS, "        f_logqp = .5 * (u ** 2).sum(dim=1, keepdim=True)\n        g_logqp = y.new_zeros(size=(y.size(0), 1))\n        return torch.cat([f, f_logqp], dim=1), torch.cat([g, g_logqp], dim=1)",
       "        f_logqp = .5 * (u ** 2).sum(dim=1, keepdim=True)\n        g_logqp = y.new_zeros(size=(y.size(0), 1))\n        return torch.cat([f + 1e-9 * f_logqp, f_logqp], dim=1), torch.cat([g, g_logqp], dim=1)", rule="R18.3"),
     V("general-g-via-other", BS, "        g = self._base_sde.g(t, y)\n        g_logqp = y.new_zeros(size=(g.size(0), 1, g.size(-1)))", "        g = self._base_sde.g(t, y) * 1.0000001\n        g_logqp = y.new_zeros(size=(g.size(0), 1, g.size(-1)))", rule="R18"),
-    V("increments-reversed", SD, "[log_ratio_t_plus_1 - log_ratio_t\n", "[log_ratio_t - log_ratio_t_plus_1\n", rule="R18.6"),
-    V("increments-off-by-one", SD, "for log_ratio_t_plus_1, log_ratio_t in zip(log_ratio[1:], log_ratio[:-1])]", "for log_ratio_t_plus_1, log_ratio_t in zip(log_ratio[1:], log_ratio[:1] * (len(log_ratio) - 1))]", rule="R18.6"),
+    V("increments-reversed", SD, "        log_ratio_increments = (log_ratio[1:] - log_ratio[:-1]).squeeze(dim=2)\n", "        log_ratio_increments = (log_ratio[:-1] - log_ratio[1:]).squeeze(dim=2)\n", rule="R18.6"),
+    V("increments-off-by-one", SD, "        log_ratio_increments = (log_ratio[1:] - log_ratio[:-1]).squeeze(dim=2)\n", "        log_ratio_increments = (log_ratio[1:] - log_ratio[:1]).squeeze(dim=2)\n", rule="R18.6"),
     V("split-sizes", SD, "ys.split(split_size=(y0.size(1) - 1, 1), dim=2)", "ys.split(split_size=(y0.size(1) - 2, 2), dim=2)", rule="R18.6"),
     V("augment-two-columns", SD, "y0 = torch.cat((y0, y0.new_zeros(size=(y0.size(0), 1))), dim=1)", "y0 = torch.cat((y0, y0.new_zeros(size=(y0.size(0), 1)) + 1), dim=1)", rule="R18.4"),
     V("stable-division-unguarded", CORE + "misc.py", "    b = torch.where(b.abs().detach() > epsilon, b, torch.full_like(b, fill_value=epsilon).copysign(b))\n    return a / b",
@@ -30,9 +30,12 @@ VARIANTS = [
     # twins
     V("twin-half-form", BS, "    def f_diagonal(self, t, y: Tensor):\n        y = y[:, :-1]\n        f, g, h = self._base_f(t, y), self._base_g(t, y), self._base_h(t, y)\n        u = misc.stable_division(f - h, g)\n        f_logqp = .5 * (u ** 2).sum(dim=1, keepdim=True)",
       "    def f_diagonal(self, t, y: Tensor):\n        y = y[:, :-1]\n        f, g, h = self._base_f(t, y), self._base_g(t, y), self._base_h(t, y)\n        u = misc.stable_division(f - h, g)\n        f_logqp = (u * u * 0.5).sum(dim=1, keepdim=True)", expect="silent"),
-    V("log-ratio-squeezed-without-axis", SD, "        ).squeeze(dim=2)\n", "        ).squeeze()\n", rule="R18.6"),
-    V("twin-increments-vectorised", SD, "        log_ratio_increments = torch.stack(\n            [log_ratio_t_plus_1 - log_ratio_t\n             for log_ratio_t_plus_1, log_ratio_t in zip(log_ratio[1:], log_ratio[:-1])], dim=0\n        ).squeeze(dim=2)\n",
-      "        log_ratio = log_ratio.squeeze(dim=2)\n        log_ratio_increments = log_ratio[1:] - log_ratio[:-1]\n", expect="silent"),
+    V("log-ratio-squeezed-without-axis", SD, "        log_ratio_increments = (log_ratio[1:] - log_ratio[:-1]).squeeze(dim=2)\n", "        log_ratio_increments = (log_ratio[1:] - log_ratio[:-1]).squeeze()\n", rule="R18.6"),
+    V("twin-increments-stacked", SD, "        log_ratio_increments = (log_ratio[1:] - log_ratio[:-1]).squeeze(dim=2)\n",
+      "        log_ratio_increments = torch.stack(\n            [log_ratio_t_plus_1 - log_ratio_t\n             for log_ratio_t_plus_1, log_ratio_t in zip(log_ratio[1:], log_ratio[:-1])], dim=0\n        ).squeeze(dim=2) if len(log_ratio) > 1 else log_ratio[1:].squeeze(dim=2)\n", expect="silent"),
+    # the unrepaired differencing: a stack of nothing for a single output time
+    V("increments-stacked-without-guard", SD, "        log_ratio_increments = (log_ratio[1:] - log_ratio[:-1]).squeeze(dim=2)\n",
+      "        log_ratio_increments = torch.stack(\n            [log_ratio_t_plus_1 - log_ratio_t\n             for log_ratio_t_plus_1, log_ratio_t in zip(log_ratio[1:], log_ratio[:-1])], dim=0\n        ).squeeze(dim=2)\n", rule="R18.6"),
     # the defect repaired by c3f6f62: sign(0) = 0 leaves an exactly-zero divisor unguarded
     V("stable-division-sign-of-zero", CORE + "misc.py", "torch.full_like(b, fill_value=epsilon).copysign(b))", "torch.full_like(b, fill_value=epsilon) * b.sign())", rule="R18.5"),
     V("stable-division-one-sided", CORE + "misc.py", "    b = torch.where(b.abs().detach() > epsilon, b, torch.full_like(b, fill_value=epsilon).copysign(b))\n",
